@@ -574,6 +574,13 @@ class InterpBase:
         return None
 
     def do_slice(self, base, lo, hi, env, node):
+        ci = lambda t: t.k == "const" and isinstance(t.a[0], int) and not isinstance(t.a[0], bool) and t.a[0] >= 0
+        if base.k == "slice" and ci(lo) and ci(hi) and ci(base.a[1]) and ci(base.a[2]) and lo.a[0] <= hi.a[0]:
+            # b[a:e][c:d] == b[a+c : min(a+d, e)] for non-negative constants, whatever the length of b (clamping commutes):
+            # one name for the same octets
+            a_, e_, c_, d_ = base.a[1].a[0], base.a[2].a[0], lo.a[0], hi.a[0]
+            if a_ + c_ <= e_:
+                return self.do_slice(base.a[0], C(a_ + c_), C(min(a_ + d_, e_)), env, node)
         if base.k == "bcat" and len(base.a[0]) > 1 and is_const(hi, None):
             r = self.bcat_tail(base, lo)
             if r is not None:
